@@ -22,16 +22,37 @@ def TileFile.name (f : TileFormat) (c : TComp) (t : TileFile) : List Char :=
 
 def TileFile.file (f : TileFormat) (c : TComp) (t : TileFile) : File := (some (t.name f c), t.payload)
 
-def TileFile.ok (t : TileFile) : Prop := t.z ≤ 31 ∧ t.x < 4294967296 ∧ t.y < 4294967296
+def TileFile.ok (t : TileFile) : Prop := t.z ≤ 31 ∧ t.x < 2 ^ t.z ∧ t.y < 2 ^ t.z
+
+theorem pow_le_u32 {z : Nat} (h : z ≤ 31) : 2 ^ z ≤ 4294967296 :=
+  Nat.le_trans (Nat.pow_le_pow_right (by omega) h) (by decide)
+
+theorem TileFile.ok.x32 {t : TileFile} (h : t.ok) : t.x < 4294967296 := Nat.lt_of_lt_of_le h.2.1 (pow_le_u32 h.1)
+theorem TileFile.ok.y32 {t : TileFile} (h : t.ok) : t.y < 4294967296 := Nat.lt_of_lt_of_le h.2.2 (pow_le_u32 h.1)
+
+theorem addTile_ok (s : State) (t : TileFile) (h : t.ok) (f : TileFormat) (c : TComp)
+    (hf : s.fmt = none ∨ s.fmt = some f) (hc : s.comp = none ∨ s.comp = some c) :
+    addTile s t.z t.x t.y f c t.payload = .ok ⟨some f, some c, ((t.x, t.y, t.z), t.payload) :: s.tiles⟩ := by
+  unfold addTile
+  have g1 : (s.fmt.isSome && decide (s.fmt ≠ some f)) = false := by
+    rcases hf with h | h <;> simp [h]
+  have g2 : (s.comp.isSome && decide (s.comp ≠ some c)) = false := by
+    rcases hc with h | h <;> simp [h]
+  have g3 : (decide (t.x ≥ 2 ^ t.z) || decide (t.y ≥ 2 ^ t.z)) = false := by
+    have := h.2.1; have := h.2.2
+    simp only [Bool.or_eq_false_iff, decide_eq_false_iff_not]
+    omega
+  rw [g1, g2, g3]
+  simp
 
 theorem classify_tileFile (f : TileFormat) (c : TComp) (t : TileFile) (h : t.ok) :
     classifyTar (t.name f c) = .tile t.z t.x t.y f c := by
   unfold TileFile.name
   cases t.dot
   · simp only [Bool.false_eq_true, if_false]
-    exact VtProofs.TarDir.classifyTar_formatName t.z t.x t.y f c h.1 h.2.1 h.2.2
+    exact VtProofs.TarDir.classifyTar_formatName t.z t.x t.y f c h.1 h.x32 h.y32
   · simp only [if_true]
-    exact VtProofs.TarDir.classifyTar_dot_formatName t.z t.x t.y f c h.1 h.2.1 h.2.2
+    exact VtProofs.TarDir.classifyTar_dot_formatName t.z t.x t.y f c h.1 h.x32 h.y32
 
 /-- the fold over tile members: all are accepted, later members are in front -/
 theorem fold_tiles (K : Inflate) (f : TileFormat) (c : TComp) : ∀ (ts : List TileFile) (s : State),
@@ -48,13 +69,7 @@ theorem fold_tiles (K : Inflate) (f : TileFormat) (c : TComp) : ∀ (ts : List T
     have hstep : tarStep K s (t.file f c) = .ok ⟨some f, some c, ((t.x, t.y, t.z), t.payload) :: s.tiles⟩ := by
       unfold tarStep TileFile.file
       simp only [classify_tileFile f c t ht]
-      unfold addTile
-      have g1 : (s.fmt.isSome && decide (s.fmt ≠ some f)) = false := by
-        rcases hf with h | h <;> simp [h]
-      have g2 : (s.comp.isSome && decide (s.comp ≠ some c)) = false := by
-        rcases hc with h | h <;> simp [h]
-      rw [g1, g2]
-      simp
+      exact addTile_ok s t ht f c hf hc
     obtain ⟨s', h1, h2, h3, _⟩ := ih ⟨some f, some c, ((t.x, t.y, t.z), t.payload) :: s.tiles⟩
       (fun u hu => hok u (by simp [hu])) (Or.inr rfl) (Or.inr rfl)
     refine ⟨s', ?_, ?_, ?_, by simp⟩
@@ -161,15 +176,10 @@ theorem dirStep_tile (K : Inflate) (f : TileFormat) (c : TComp) (t : TileFile) (
   unfold dirStep dirFile
   simp only [VtProofs.TarDir.splitSlash_formatName]
   have h1 : parseU8 (natToDec t.z) = some t.z := VtProofs.TarDir.parseUnsigned_natToDec 256 t.z (by have := h.1; omega)
-  have h2 : parseU32 (natToDec t.x) = some t.x := VtProofs.TarDir.parseUnsigned_natToDec _ t.x h.2.1
-  have h3 : parseU32 (natToDec t.y) = some t.y := VtProofs.TarDir.parseUnsigned_natToDec _ t.y h.2.2
+  have h2 : parseU32 (natToDec t.x) = some t.x := VtProofs.TarDir.parseUnsigned_natToDec _ t.x h.x32
+  have h3 : parseU32 (natToDec t.y) = some t.y := VtProofs.TarDir.parseUnsigned_natToDec _ t.y h.y32
   simp only [h1, h2, VtProofs.TarDir.compFrom_ext, VtProofs.TarDir.fmtFrom_ext, h3]
-  unfold addTile
-  have g1 : (s.fmt.isSome && decide (s.fmt ≠ some f)) = false := by
-    rcases hf with h | h <;> simp [h]
-  have g2 : (s.comp.isSome && decide (s.comp ≠ some c)) = false := by
-    rcases hc with h | h <;> simp [h]
-  rw [g1, g2]
+  rw [addTile_ok s t h f c hf hc]
   have : ¬ (t.z > 31) := by have := h.1; omega
   simp [this]
 
@@ -305,14 +315,8 @@ theorem tarStep_eq_dirFile (K : Inflate) (f : TileFormat) (c : TComp) (t : TileF
     (hf : s.fmt = none ∨ s.fmt = some f) (hc : s.comp = none ∨ s.comp = some c) :
     tarStep K s (dirFile f c t) = .ok ⟨some f, some c, ((t.x, t.y, t.z), t.payload) :: s.tiles⟩ := by
   unfold tarStep dirFile
-  simp only [VtProofs.TarDir.classifyTar_formatName t.z t.x t.y f c h.1 h.2.1 h.2.2]
-  unfold addTile
-  have g1 : (s.fmt.isSome && decide (s.fmt ≠ some f)) = false := by
-    rcases hf with h | h <;> simp [h]
-  have g2 : (s.comp.isSome && decide (s.comp ≠ some c)) = false := by
-    rcases hc with h | h <;> simp [h]
-  rw [g1, g2]
-  simp
+  simp only [VtProofs.TarDir.classifyTar_formatName t.z t.x t.y f c h.1 h.x32 h.y32]
+  exact addTile_ok s t h f c hf hc
 
 /-- folding the reader's step over files the writers produce: metadata files leave the state
     unchanged, tile files are collected (later ones in front) -/
@@ -378,7 +382,7 @@ theorem tiles_of_items (s : WSource) :
 /-- what the writers need from the source: valid coordinates, every coordinate streamed once, at
     least one tile, metadata that inflates -/
 structure WOk (K : Inflate) (s : WSource) : Prop where
-  valid : ∀ t ∈ s.levels.flatMap s.stream, t.1.2.2 ≤ 31 ∧ t.1.1 < 4294967296 ∧ t.1.2.1 < 4294967296
+  valid : ∀ t ∈ s.levels.flatMap s.stream, t.1.2.2 ≤ 31 ∧ t.1.1 < 2 ^ t.1.2.2 ∧ t.1.2.1 < 2 ^ t.1.2.2
   nodup : ((s.levels.flatMap s.stream).map (·.1)).Nodup
   nonempty : s.levels.flatMap s.stream ≠ []
   metaOk : ∃ raw, K.run s.comp s.metaB = .ok raw
